@@ -954,13 +954,15 @@ func (w *bscWorld) checkClient(when string) {
 	if len(gotR) != len(w.m.recents) {
 		w.rec.Violate("C09", "recents", "mismatch", "%s: client recents %v, model %v", when, keysOf(gotR), keysOf(w.m.recents))
 	} else {
-		for h, a := range w.m.recents {
+		for _, h := range keysOf(w.m.recents) {
+			a := w.m.recents[h]
 			if gotR[h] != a {
 				w.rec.Violate("C09", "recents", "mismatch", "%s: recent signer at %d differs", when, h)
 			}
 		}
 	}
-	for h, root := range w.m.roots {
+	for _, h := range rootKeys(w.m.roots) {
+		root := w.m.roots[h]
 		c, ok := k.GetClientConsensusState(ctx, w.name, clienttypes.NewHeight(0, h))
 		if !ok {
 			w.rec.Violate("C09", "consensus_state", "missing", "%s: consensus state at %d missing", when, h)
@@ -982,7 +984,7 @@ func (w *bscWorld) checkClient(when string) {
 			}
 		}
 	}
-	for h := range w.m.roots {
+	for _, h := range rootKeys(w.m.roots) {
 		if !seen[h] {
 			w.rec.Violate("C19", "readback", "consensus_height_dropped:"+byteClass(0, h), "%s: bsc consensus state at %d not returned by iteration", when, h)
 		}
@@ -1004,6 +1006,15 @@ func sameSet(a, b []common.Address) bool {
 }
 
 func keysOf(m map[uint64]common.Address) []uint64 {
+	var out []uint64
+	for k := range m {
+		out = append(out, k)
+	}
+	sort.Slice(out, func(i, j int) bool { return out[i] < out[j] })
+	return out
+}
+
+func rootKeys(m map[uint64]common.Hash) []uint64 {
 	var out []uint64
 	for k := range m {
 		out = append(out, k)
